@@ -18,10 +18,10 @@ from harness.framework import Check
 
 PROP = "C16"
 FLAGS = ["q_py_hash_in_string", "q_ts_nonpublic_counted", "q_ts_accessor_counted", "q_ts_block_comment_counted",
-         "q_rs_name_collision", "q_rs_block_comment_counted"]
-LANG_FLAGS = {"py": FLAGS[0:1], "ts": FLAGS[1:4], "js": FLAGS[1:4], "rs": FLAGS[4:6]}
+         "q_rs_name_collision", "q_rs_block_comment_counted", "q_py_setter_counted", "q_py_cached_property_counted"]
+LANG_FLAGS = {"py": [FLAGS[0], FLAGS[6], FLAGS[7]], "ts": FLAGS[1:4], "js": FLAGS[1:4], "rs": FLAGS[4:6]}
 # defects of the Python mirror: the ones still present ...
-ACTUAL = frozenset({"py_hash", "ts_nonpublic", "ts_accessor", "ts_block", "rs_collision", "rs_block"})
+ACTUAL = frozenset({"py_hash", "ts_nonpublic", "ts_accessor", "ts_block", "rs_collision", "rs_block", "py_setter", "py_cached"})
 # ... and the ones repaired by fix: commits (known.d status "fixed: ..."): observing one again is a violation
 FIXED_GROUPS = [(("q_ts_loc_raw_span",), {"ts_loc_raw"}), (("q_ts_abstract_skipped",), {"ts_abstract"}),
                 (("q_rs_trait_first_ident",), {"rs_trait"}), (("q_rs_generic_impl_lost",), {"rs_generic"}),
@@ -39,10 +39,10 @@ PUB_NAMES = ["run", "load", "save", "get_x", "process", "render", "update", "clo
              "emit", "reset", "handle", "compute", "a", "b2", "toJson", "validate"]
 DUNDERS = ["__init__", "__str__", "__repr__", "__eq__", "__len__", "__call__"]
 PUBLIC_KINDS = {"MPlain", "MAsync", "MStatic", "MClassM", "MPublicKw", "MPubFn"}
-METHOD_KINDS = {"py": ["MPlain", "MPlain", "MPlain", "MAsync", "MStatic", "MClassM", "MProperty", "MField"],
-                "ts": ["MPlain", "MPlain", "MPlain", "MAsync", "MStatic", "MProperty", "MCtor", "MPublicKw", "MPrivateKw", "MProtectedKw",
+METHOD_KINDS = {"py": ["MPlain", "MPlain", "MPlain", "MAsync", "MStatic", "MClassM", "MProperty", "MSetter", "MCachedProp", "MField"],
+                "ts": ["MPlain", "MPlain", "MPlain", "MAsync", "MStatic", "MProperty", "MSetter", "MCtor", "MPublicKw", "MPrivateKw", "MProtectedKw",
                        "MHashPrivate", "MField"],
-                "js": ["MPlain", "MPlain", "MPlain", "MAsync", "MStatic", "MProperty", "MCtor", "MHashPrivate", "MField"],
+                "js": ["MPlain", "MPlain", "MPlain", "MAsync", "MStatic", "MProperty", "MSetter", "MCtor", "MHashPrivate", "MField"],
                 "rs": ["MPlain", "MPlain", "MPubFn", "MPubFn", "MAsync", "MStatic", "MField"]}
 
 
@@ -125,7 +125,7 @@ class Gen:
         used.add(cand)
         return cand
 
-    def member(self, kind, name, depth):
+    def member(self, kind, name, depth, variant=None):
         r, lang = self.r, self.lang
         meta = {"kind": kind, "name": name}
         one = r.random() < 0.35
@@ -133,18 +133,23 @@ class Gen:
             head = {"py": f"{name} = 1", "ts": f"{name} = 1;", "js": f"{name} = 1;", "rs": f"const {name}: i32 = 1;"}[lang]
             return block("member", meta, [head], [], [])
         if lang == "py":
-            deco = {"MStatic": ["@staticmethod"], "MClassM": ["@classmethod"], "MProperty": ["@property"]}.get(kind, [])
-            args = {"MStatic": "", "MClassM": "cls"}.get(kind, "self")
+            deco = {"MStatic": ["@staticmethod"], "MClassM": ["@classmethod"], "MProperty": ["@property"], "MCachedProp": ["@cached_property"],
+                    "MSetter": [f"@{name}.{variant or 'setter'}"]}.get(kind, [])
+            args = {"MStatic": "", "MClassM": "cls", "MSetter": "self" if variant == "deleter" else "self, value"}.get(kind, "self")
             kw = "async def" if kind == "MAsync" else "def"
             if one:
                 return block("member", meta, deco + [f"{kw} {name}({args}): return 1"], [], [])
             return block("member", meta, deco + [f"{kw} {name}({args}):"], self.body(depth), [])
         if lang in ("ts", "js"):
-            pre = {"MAsync": "async ", "MStatic": "static ", "MProperty": "get ", "MPublicKw": "public ", "MPrivateKw": "private ",
+            pre = {"MAsync": "async ", "MStatic": "static ", "MProperty": "get ", "MSetter": "set ", "MPublicKw": "public ", "MPrivateKw": "private ",
                    "MProtectedKw": "protected ", "MHashPrivate": "#"}.get(kind, "")
+            par = "value" if kind == "MSetter" else ""
             if one:
-                return block("member", meta, [f"{pre}{name}() {{ return 1; }}"], [], [])
-            return block("member", meta, [f"{pre}{name}() {{"], self.body(depth), ["}"])
+                return block("member", meta, [f"{pre}{name}({par}) {{ return{'' if kind == 'MSetter' else ' 1'}; }}"], [], [])
+            kids = self.body(depth)
+            if kind == "MSetter":
+                kids = [k for k in kids if not (k[0] == "line" and k[2].startswith("return"))]
+            return block("member", meta, [f"{pre}{name}({par}) {{"], kids, ["}"])
         pre = {"MPubFn": "pub fn", "MAsync": "async fn"}.get(kind, "fn")
         args = "" if kind == "MStatic" else "&self"
         if one:
@@ -167,7 +172,12 @@ class Gen:
                 k = self.body_line()
                 if k[1] != "LCode":       # between members only blank / comment lines
                     kids.append(k)
-            kids.append(self.member(kind, self.member_name(kind, used), depth))
+            name = self.member_name(kind, used)
+            if kind == "MSetter" and lang == "py":      # a setter / deleter belongs to a property of the same name defined before it
+                kids.append(self.member("MProperty", name, depth))
+                kids.append(self.member("MSetter", name, depth, variant=r.choice(["setter", "setter", "deleter"])))
+                continue
+            kids.append(self.member(kind, name, depth))
         return kids
 
     # -- classes
@@ -336,18 +346,24 @@ def _trim_container(b):
 
 
 # ------------------------------------------------------------------ rendering: text + flat abstract input
-def render(lang, tree, top_offset=0):
+def render(lang, tree, top_offset=0, tab=False):
+    """text + flat abstract input.  Lines carry their RAW text (indentation, trailing blanks): the Coq model applies its
+    own str.strip().  tab: indent TS/JS/Rust with one tab per level"""
     if lang == "py":
         tree = trim_python(tree)
-    ind = INDENT[lang]
+        tab = False
+    ind = 1 if tab else INDENT[lang]
+    unit = "\t" if tab else " "
     out = []          # (kind, stripped text, rendered text)
     flat = {"classes": [], "structs": [], "impls": []}
 
     def put(kind, text, depth, ws_variant=0):
+        n = len(out)
         if kind == "LBlank":
-            out.append((kind, "", " " * (ind * depth) if ws_variant else ""))
+            out.append((kind, "", ["", unit * (ind * depth), "\t", "   "][n % 4] if ws_variant else ""))
         else:
-            out.append((kind, text.strip(), " " * (ind * depth) + text))
+            trail = " " if n % 11 == 5 else ("\t" if n % 13 == 7 else ("  " if n % 17 == 3 else ""))
+            out.append((kind, text.strip(), unit * (ind * depth) + text + trail))
 
     def emit(node, depth, owner, path):
         if node[0] == "line":
@@ -387,7 +403,7 @@ def render(lang, tree, top_offset=0):
     for node in tree:
         emit(node, 0, None, [])
     text = "\n".join(t for _, _, t in out) + "\n"
-    flat["lines"] = [[k, s] for k, s, _ in out]
+    flat["lines"] = [[k, t] for k, _, t in out]
     return text, flat
 
 
@@ -444,12 +460,16 @@ def mirror_units(case, D):
 
     def counted(m):
         k, under = m["kind"], m["name"].startswith("_")
+        if lang == "py" and k == "MSetter":
+            return "py_setter" in D and not under
+        if lang == "py" and k == "MCachedProp":
+            return "py_cached" in D and not under
         if lang in ("ts", "js"):
             if k == "MHashPrivate":
                 return "ts_nonpublic" in D
             if k in ("MPrivateKw", "MProtectedKw"):
                 return "ts_nonpublic" in D and not under
-            if k == "MProperty":
+            if k in ("MProperty", "MSetter"):
                 return "ts_accessor" in D and not under
         return _public(m)
 
@@ -571,8 +591,76 @@ def gen_cases(seed: int, n_files: int, n_cfg: int, size: float):
         tree = g.file()
         if r.random() < 0.12 and lang != "rs":
             tree.append(big_class(r, lang))
-        cases.append(make_case(f"g{i}", lang, tree, r, n_cfg, via="cli" if r.random() < 0.03 else "api", top_offset=r.choice([0, 0, 1, 2])))
+        ext = {"ts": ".tsx", "js": ".jsx"}.get(lang) if r.random() < 0.2 else None
+        cases.append(make_case(f"g{i}", lang, tree, r, n_cfg, via="cli" if r.random() < 0.04 else "api", top_offset=r.choice([0, 0, 1, 2]),
+                               tab=r.random() < 0.2, ext=ext))
     return cases
+
+
+def gen_groups(seed: int, n_groups: int, n_cfg: int, size: float):
+    """projects: 2-3 files of different languages linted in ONE run on ONE orchestrator object under one configuration
+    object that has a section for the first file's language (and, at random, decoy sections for the others): every
+    file must get exactly what it gets alone, whatever the order in which the files are processed"""
+    groups = []
+    for i in range(n_groups):
+        r = rng_for(seed, PROP, "group", i)
+        langs = r.sample(["py", "ts", "js", "rs"], r.choice([2, 2, 3]))
+        trees = [Gen(r, lg, size=size * r.choice([0.5, 1])).file() for lg in langs]
+        flats = [render(lg, t)[1] for lg, t in zip(langs, trees)]
+        us = [u for lg, fl in zip(langs, flats) for u in units(lg, fl)]
+        cfgs = gen_configs(r, langs[0], us, n_cfg)
+        via = "cli-dir" if r.random() < 0.1 else "api"
+        members = [make_case(f"p{i}.{k}", lg, t, r, 0, via=via, configs=cfgs + cfgs) for k, (lg, t) in enumerate(zip(langs, trees))]
+        groups.append({"id": f"p{i}", "members": members, "configs": cfgs, "via": via})
+    return groups
+
+
+def run_group(group):
+    """every configuration: one dict object, one orchestrator, all files in order, then (fresh dict) in reverse order;
+    member k gets runs [forward per config ..., reversed per config ...]"""
+    global _orch
+    ms = group["members"]
+    with scratch_dir("tv-c16g-") as d:
+        proj = d / "proj"
+        proj.mkdir()
+        files = []
+        for k, m in enumerate(ms):
+            f = proj / (f"f{k}" + m.get("ext", EXT[m["lang"]]))
+            f.write_text(m["text"])
+            files.append(f)
+        runs = [[] for _ in ms]
+        if group["via"] == "cli-dir":
+            import yaml
+            for j, sec in enumerate(group["configs"]):
+                cf = d / f"cfg{j}.yaml"
+                cf.write_text(yaml.safe_dump(cfg_to_dict(sec)))
+                rc, so, se = run_cli(["srp", "--format", "json", "--config", str(cf), str(proj)], cwd=d)
+                vs = parse_json_violations(so)
+                for k, f in enumerate(files):
+                    if vs is None or rc not in (0, 1):
+                        runs[k].append({"error": f"rc={rc} stdout={so[:200]} stderr={se[-300:]}"})
+                    else:
+                        runs[k].append(_parse([v for v in vs if Path(v["file_path"]).name == f.name]))
+            return [{"runs": r + r, "failures": []} for r in runs]
+        if _orch is None:
+            _orch = make_orchestrator(d, {})
+        _orch.project_root = d
+        half = [[[] for _ in ms], [[] for _ in ms]]
+        for h, order in enumerate((list(range(len(ms))), list(reversed(range(len(ms)))))):
+            for sec in group["configs"]:
+                _orch.config = cfg_to_dict(sec)      # ONE configuration object for the whole project run
+                for k in order:
+                    try:
+                        vs = _orch.lint_file(files[k])
+                        half[h][k].append(_parse([{"rule_id": v.rule_id, "line": v.line, "column": v.column, "message": v.message} for v in vs]))
+                    except Exception as e:  # noqa: BLE001
+                        half[h][k].append({"error": f"{type(e).__name__}: {e}"})
+        fails = drain_failures()
+        return [{"runs": half[0][k] + half[1][k], "failures": fails} for k in range(len(ms))]
+
+
+def run_job(job):
+    return run_group(job) if "members" in job else [run_impl(job)]
 
 
 def big_class(r, lang):
@@ -595,11 +683,31 @@ def big_class(r, lang):
     return c
 
 
-def make_case(cid, lang, tree, r, n_cfg, via="api", top_offset=0, configs=None):
-    text, flat = render(lang, tree, top_offset)
+def make_case(cid, lang, tree, r, n_cfg, via="api", top_offset=0, configs=None, tab=False, ext=None):
+    text, flat = render(lang, tree, top_offset, tab)
     us = units(lang, flat)
     cfgs = configs if configs is not None else gen_configs(r, lang, us, n_cfg)
-    return {"id": cid, "lang": lang, "tree": tree, "text": text, "flat": flat, "configs": cfgs, "units": us, "via": via}
+    case = {"id": cid, "lang": lang, "ext": ext or EXT[lang], "tree": tree, "text": text, "flat": flat, "configs": cfgs, "units": us, "via": via}
+    if via == "cli" and r is not None:
+        # `thailint srp --max-methods N --max-loc M`: the documented command-line override of the top-level thresholds.  The configuration
+        # the model sees is the effective one (file section with the top-level keys replaced); only used when the file's language has no
+        # section of its own (which of the two wins there is C05's subject)
+        cli = []
+        for j, sec in enumerate(cfgs):
+            flags = []
+            if not any(k == LANG_KEY[lang] for k, _ in sec) and r.random() < 0.6:
+                u = r.choice(us) if us else {"mc": 3, "loc": 10}
+                over = {}
+                if r.random() < 0.7:
+                    over["max_methods"] = max(1, u["mc"] + r.choice([-1, 0, 0, 1]))
+                if r.random() < 0.7 or not over:
+                    over["max_loc"] = max(1, u["loc"] + r.choice([-1, 0, 0, 1]))
+                for k, v in over.items():
+                    flags += ["--" + k.replace("_", "-"), str(v)]
+                cfgs[j] = [[k, ["nat", v]] for k, v in over.items()] + [e for e in sec if e[0] not in over]
+            cli.append({"sec": sec, "flags": flags})
+        case["cli"] = cli
+    return case
 
 
 # ------------------------------------------------------------------ implementation
@@ -620,15 +728,16 @@ def run_impl(case):
     """implementation output for every configuration: sorted [line, column, message]"""
     global _orch
     with scratch_dir("tv-c16-") as d:
-        f = d / ("case" + EXT[case["lang"]])
+        f = d / ("case" + case.get("ext", EXT[case["lang"]]))
         f.write_text(case["text"])
         res = []
         if case["via"] == "cli":
             import yaml
             for j, sec in enumerate(case["configs"]):
+                written = case["cli"][j] if "cli" in case else {"sec": sec, "flags": []}
                 cf = d / f"cfg{j}.yaml"
-                cf.write_text(yaml.safe_dump(cfg_to_dict(sec)))
-                rc, so, se = run_cli(["srp", "--format", "json", "--config", str(cf), str(f)], cwd=d)
+                cf.write_text(yaml.safe_dump(cfg_to_dict(written["sec"])))
+                rc, so, se = run_cli(["srp", "--format", "json", "--config", str(cf), *written["flags"], str(f)], cwd=d)
                 vs = parse_json_violations(so)
                 if vs is None or rc not in (0, 1):
                     res.append({"error": f"rc={rc} stdout={so[:200]} stderr={se[-300:]}"})
@@ -662,7 +771,7 @@ def coq_path(p):
     return coq.coq_list([cs(x) for x in p])
 
 
-def coq_file(lang, flat):
+def coq_file(lang, flat, ext=None):
     lines = coq.coq_list([f"L {k} {cs(t)}" for k, t in flat["lines"]])
     classes = coq.coq_list([f"C {cs(c['name'])} {c['ckind']} {c['line']} {c['col']} {c['deco']} {c['len']} {coq_members(c['members'])}" for c in flat["classes"]])
     structs = coq.coq_list([f"S' {cs(s['name'])} {coq_path(s['path'])} {coq.coq_bool(s['generic'])} {s['line']} {s['col']} {s['len']}" for s in flat["structs"]])
@@ -673,7 +782,7 @@ def coq_file(lang, flat):
         return f"(TSimple {cs(t[1])})" if t[0] == "simple" else f"(TScoped {cs(t[1])} {cs(t[2])})"
     impls = coq.coq_list([f"I {cs(i['self'])} {tr(i['trait'])} {coq.coq_bool(i['generic'])} {coq_path(i['path'])} {i['line']} {i['len']} {coq_members(i['members'])}"
                           for i in flat["impls"]])
-    return f"(F {COQ_LANG[lang]} {cs(EXT[lang])} {lines} {classes} {structs} {impls})"
+    return f"(F {COQ_LANG[lang]} {cs(ext or EXT[lang])} {lines} {classes} {structs} {impls})"
 
 
 def coq_cfg(sec):
@@ -696,7 +805,7 @@ def coq_case(case, impl) -> str:
     for sec, r in zip(case["configs"], impl["runs"]):
         reps = coq.coq_list([f"({l}, {c}, {cs(m)})" for l, c, m in (r if isinstance(r, list) else [])])
         runs.append(f"({coq_cfg(sec)}, {reps})")
-    return f"judge srp_actual {coq_file(case['lang'], case['flat'])} {coq.coq_list(runs)}"
+    return f"judge srp_actual {coq_file(case['lang'], case['flat'], case.get('ext'))} {coq.coq_list(runs)}"
 
 
 def judge(cases, impls, workdir: Path, per_shard=12):
@@ -742,7 +851,9 @@ def run(tier: str, seed: int, replay: str | None = None) -> int:
                 "public/private/dunder/property/getter/static/classmethod/async/constructor/TS access modifiers/#private/fields; bodies of "
                 "code/blank/comment/block-comment/docstring lines; nested classes; Rust modules, trait and generic impls) each linted under a sweep of "
                 "configurations (thresholds = count-1, count, count+1 of one of its classes, top-level and per-language sections, decoy sections of other "
-                "languages, keyword settings), in-process Orchestrator and a fraction through the CLI with a YAML config; an evaluation = one (file, "
+                "languages, keyword settings), in-process Orchestrator and a fraction through the CLI with a YAML config; plus multi-language projects "
+                "(2-3 files linted on one Orchestrator under one configuration object, in both file orders, some as a CLI directory run) where every file "
+                "must get what it gets alone; an evaluation = one (file, "
                 "configuration) run; it is non-trivial when a threshold in force is within 1 of the documented count of some class of the file; distinct = "
                 "distinct (file text, configuration)")
     chk.trusted_base.append("C16: the abstract input (source lines with kinds, class/struct/impl records with node positions and direct members) is what the "
@@ -756,10 +867,20 @@ def run(tier: str, seed: int, replay: str | None = None) -> int:
     n_files = (170 if tier == "quick" else 1800) * scale
     n_cfg = 6 if tier == "quick" else 8
     if replay:
-        cases = [json.loads(Path(replay).read_text())["violation"]["case"]]
+        rc_ = json.loads(Path(replay).read_text())["violation"]["case"]
+        jobs = [rc_["group"]] if "group" in rc_ else [rc_]
     else:
-        cases = corpus_cases() + gen_cases(seed, n_files, n_cfg, 1.0 if tier == "quick" else 1.3)
-    impls = pool_map(run_impl, cases, procs=8)
+        jobs = corpus_cases() + gen_cases(seed, n_files, n_cfg, 1.0 if tier == "quick" else 1.3) \
+            + gen_groups(seed, n_files // 5, 3 if tier == "quick" else 4, 0.7)
+    cases, impls = [], []
+    for job, res in zip(jobs, pool_map(run_job, jobs, procs=8)):
+        ms = job["members"] if "members" in job else [job]
+        for m in ms:
+            if "members" in job:
+                m["group"] = {"id": job["id"], "configs": job["configs"], "via": job["via"],
+                              "members": [{k: x[k] for k in ("id", "lang", "ext", "tree", "text", "flat", "units", "via", "configs")} for x in ms]}
+        cases += ms
+        impls += res
     with scratch_dir("tv-c16-coq-") as wd:
         try:
             verdicts = judge(cases, impls, wd)
@@ -770,7 +891,10 @@ def run(tier: str, seed: int, replay: str | None = None) -> int:
     mirror_bad = []
     for case, impl, ver in zip(cases, impls, verdicts):
         lang = case["lang"]
-        slim = {k: case[k] for k in ("id", "lang", "tree", "text", "flat", "units", "via")}
+        slim = {k: case[k] for k in ("id", "lang", "ext", "tree", "text", "flat", "units", "via") if k in case}
+        if "group" in case:
+            slim["group"] = case["group"]     # the replay re-runs the whole project
+            chk.dist("project-runs:" + case["group"]["via"])
         for m in [m for c in case["flat"]["classes"] + case["flat"]["impls"] for m in c["members"]]:
             chk.dist("member:" + m["kind"] + (":_" if m["name"].startswith("_") else ""))
         for k, _ in case["flat"]["lines"]:
@@ -785,6 +909,9 @@ def run(tier: str, seed: int, replay: str | None = None) -> int:
             continue
         for j, (sec, r) in enumerate(zip(case["configs"], impl["runs"])):
             one = {**slim, "configs": [sec]}
+            if "cli" in case:
+                one["cli"] = [case["cli"][j]]
+                chk.dist("cli-threshold-flags:" + ("yes" if case["cli"][j]["flags"] else "no"))
             chk.count([case["text"], sec], boundary_run(case, sec))
             chk.dist("via:" + case["via"])
             chk.dist("lang:" + lang)
